@@ -29,6 +29,8 @@ type Obligation struct {
 	Result    *SolverResult
 	PathID    int
 	InputVals []modelInput
+	Clause    Expr  // contract clause (ensures) for native evaluation in replays
+	Hint      *Term // replay hint: only used to pick a more realistic model, never for the verdict
 }
 
 type modelInput struct {
@@ -71,6 +73,7 @@ type Engine struct {
 	statesRun    int
 	rootKey      string
 	rootInputs   []modelInput
+	rootHint     *Term
 	funcsByKey   map[string]*ssa.Function
 	inlineDepth  int
 	verbose      bool
@@ -80,6 +83,7 @@ type Engine struct {
 	funcsTouched map[string]bool
 	inc          *incSolver
 	modDir       string
+	globalNonNil map[*ssa.Global]bool
 }
 
 func NewEngine() *Engine {
@@ -197,6 +201,13 @@ func (e *Engine) LoadContracts(specDir string) error {
 	})
 	if perr != nil {
 		return perr
+	}
+	for key, c := range e.cs.Funcs {
+		if !c.Extern {
+			if _, ok := e.funcsByKey[key]; !ok {
+				return fmt.Errorf("%s: contract for unknown function %s", c.File, key)
+			}
+		}
 	}
 	ms, _ := filepath.Glob(filepath.Join(specDir, "*.spec"))
 	sort.Strings(ms)
@@ -329,6 +340,6 @@ func (s *State) addObligation(kind, name, tag string, pos token.Pos, goal Term, 
 		return
 	}
 	o := &Obligation{Name: name, Kind: kind, Tag: tag, Root: s.eng.rootKey, Pos: posString(s.eng.fset, pos),
-		Assumes: s.assumes.slice(), Goal: goal, Desc: desc, PathID: s.id, Trace: append([]string(nil), s.trace...), InputVals: s.eng.rootInputs}
+		Assumes: s.assumes.slice(), Goal: goal, Desc: desc, PathID: s.id, Trace: append([]string(nil), s.trace...), InputVals: s.eng.rootInputs, Hint: s.eng.rootHint}
 	s.eng.obligations = append(s.eng.obligations, o)
 }
